@@ -113,6 +113,9 @@ def rule_verify(ctx):
     fh = ctx.fn("aiokafka.conn.AIOKafkaConnection._do_sasl_handshake")
     ch = ctx.cfg(fh)
     stp = [n for n in ch.nodes if n.kind == "await" and "authenticator.step(" in unparse(n.ast)]
+    if not stp:      # driven through a helper of the connection (its own discipline is decided by driver-exhausts)
+        stp = [n for n in ch.nodes if n.kind == "await" and isinstance(n.ast, ast.Await) and isinstance(n.ast.value, ast.Call) and unparse(n.ast.value.func).startswith("self.")
+               and any(any(isinstance(x, ast.Call) and call_attr(x) == "step" for x in ast.walk(t.node)) for t in ctx.resolve_call(fh, n.ast.value))]
     hs = [m for n in stp for m, l in n.succ if l == "exc" and m.kind == "handler"]
     ctx.ob(R, fh, fh.node, len(stp) == 1 and not hs, "errors of the authenticator are caught in the handshake loop", text="handshake-propagates")
 
@@ -272,8 +275,27 @@ def rule_driver(ctx):
     c = ctx.cfg(fi)
     steps = [n for n in c.nodes if n.kind == "await" and isinstance(n.ast, ast.Await) and isinstance(n.ast.value, ast.Call) and call_attr(n.ast.value) == "step"]
     steps = [n for n in steps if unparse(n.ast.value.func.value) == "authenticator"]
-    ctx.anchor(len(steps) == 1, "await authenticator.step(...) in _do_sasl_handshake")
-    st = steps[0]
+    if not steps:
+        # the step may be driven through a helper of the connection: then the helper's result must BE the step's result on every
+        # normal path (no other value, no falling off the end with None -- None is what the loop reads as `exhausted`)
+        via = []
+        for n in c.nodes:
+            if n.kind == "await" and isinstance(n.ast, ast.Await) and isinstance(n.ast.value, ast.Call) and unparse(n.ast.value.func).startswith("self."):
+                for t in ctx.resolve_call(fi, n.ast.value):
+                    if any(isinstance(x, ast.Call) and call_attr(x) == "step" for x in ast.walk(t.node)):
+                        via.append((n, t))
+        ctx.anchor(len(via) == 1, "await authenticator.step(...) in _do_sasl_handshake (directly or through one helper)")
+        st, helper = via[0]
+        ch = ctx.cfg(helper)
+        hs = [x for x in ch.nodes if x.kind in ("await", "call") and isinstance(getattr(x.ast, "value", x.ast), ast.Call) and call_attr(getattr(x.ast, "value", x.ast)) == "step"]
+        direct = [r for r in ch.nodes if r.kind == "return" and r.ast.value is not None and isinstance(r.ast.value, ast.Await) and isinstance(r.ast.value.value, ast.Call)
+                  and call_attr(r.ast.value.value) == "step"]
+        ok = bool(direct) and ch.exit not in ch.reachable([ch.entry], avoid=set(direct), exc=False)
+        ctx.ob(R, helper, helper.node, ok, f"{helper.name}() can end normally with something other than the authenticator step's own result (e.g. None after a timeout): "
+                                           "the handshake loop takes None for `authentication complete` although the server's proof was never verified", text="helper-returns-step-result")
+    else:
+        ctx.anchor(len(steps) == 1, "await authenticator.step(...) in _do_sasl_handshake")
+        st = steps[0]
     loops = [a for a, role in st.within if isinstance(a, ast.While) and role == "body"]
     ctx.anchor(len(loops) == 1, "handshake loop")
     head = c.loop_head(loops[0])
